@@ -106,22 +106,25 @@ Definition start (P : params) : cnt := (returns (request P), [], 0).
 
 (** Membership: DetGrammar.__contains_rec__ specialised to CFGs (the state
     carried besides the stack is always None, so the traversal is the
-    structural one), with the arity test. *)
-Fixpoint contains_at (P : params) (x : cnt) (p : prog) : bool :=
+    structural one), with the arity test.  Generic in the rule function so
+    that the raw and the cleaned grammar share the definition. *)
+Fixpoint contains_gen (R : cnt -> list rule) (x : cnt) (p : prog) : bool :=
   match p with
-  | PLeaf s => match rlookup s (crules P x) with Some [] => true | _ => false end
+  | PLeaf s => match rlookup s (R x) with Some [] => true | _ => false end
   | PFun f args =>
-    match rlookup f (crules P x) with
+    match rlookup f (R x) with
     | Some nts =>
       (fix go (nts : list cnt) (args : list prog) {struct args} : bool :=
          match nts, args with
          | [], [] => true
-         | n :: nr, a :: ar => contains_at P n a && go nr ar
+         | n :: nr, a :: ar => contains_gen R n a && go nr ar
          | _, _ => false
          end) nts args
     | None => false
     end
   end.
+
+Definition contains_at (P : params) : cnt -> prog -> bool := contains_gen (crules P).
 
 Definition contains (P : params) (p : prog) : bool := contains_at P (start P) p.
 
